@@ -22,5 +22,10 @@ H = [
       stubs=["kyber.Group -> recording fake whose IsCanonical / HasSmallOrder / Equal return arbitrary verdicts", "schnorr.hash -> stub (the hash is not the subject)"],
       functions=["schnorr.VerifyWithChecks"], bound="all 32-byte keys and 64-byte signatures, all verdicts of the group's predicates",
       mutants=[dict(id="C08a", file="sign/schnorr/schnorr.go", old="\t\tif !p.IsCanonical(sig[:pointSize]) {\n\t\t\treturn errors.New(\"point R is not canonical\")\n\t\t}", new="\t\t_ = p.IsCanonical")]),
+ dict(name="eddsa.VerifyWithChecks", pkg="./sign/eddsa", files=["harness/C08/eddsa_checks.go"], entry="HarnessEdDSAVerifyWithChecks", mode="bv", unwind=200, globals=["group"], globals_all=True,
+      renames={"(*go.dedis.ch/kyber/v4/group/edwards25519.Curve).Scalar": "fkNewScalar", "(*go.dedis.ch/kyber/v4/group/edwards25519.Curve).Point": "fkNewPoint", "crypto/sha512.New": "fkSha512"},
+      replay_entry="HarnessEdDSAVerifyWithChecksReplay",
+      stubs=["edwards25519.Curve.Point / Scalar -> recording fakes: IsCanonical / HasSmallOrder return arbitrary verdicts, every point carries its component in the 8-torsion subgroup Z_8 and every scalar its value modulo 8; Equal = arbitrary verdict on the prime-order component AND equality of the torsion components", "crypto/sha512 -> arbitrary 64-byte digest"],
+      functions=["eddsa.VerifyWithChecks"], bound="all 32-byte keys and 64-byte signatures, all verdicts of the group's predicates, all torsion components of R and of the key, all challenges modulo 8"),
 ]
 json.dump(dict(property="C08", harnesses=H), open(os.path.join(os.path.dirname(__file__), "..", "specs", "C08.json"), "w"), indent=1)
